@@ -15,7 +15,7 @@ RULE = ("lint-clean circuits of <= 10 nodes built from a random DAG (1..3 inputs
 EXPLANATION = ("model through the API model with the feedback set read back from the result; semantic theorem on the closed form of the result; "
                "closed form = model = implementation decided per case; oracle enumerates all stable states")
 SHARD = 20
-HASHSEEDS = {"quick": [0, 1], "thorough": [0, 1, 2, 3]}
+HASHSEEDS = {"quick": [0, 1], "thorough": [0, 1, 2]}
 MAX_RESULT_NODES = 80
 
 
@@ -68,7 +68,7 @@ def stress_names(rng, d):
 
 
 def generate(rng, tier):
-    n = 170 if tier == "quick" else 2500
+    n = 170 if tier == "quick" else 1500
     out = []
     for i in range(n):
         r = rng.random()
